@@ -41,7 +41,7 @@ func main() {
 	out := flag.String("out", "", "")
 	mapout := flag.String("mapout", "", "")
 	ovl := flag.String("overlay", "", "existing overlay json (for virtual files)")
-	_ = flag.Bool("race", false, "")
+	flag.BoolVar(&raceMode, "race", false, "wrap accesses to the configured shared fields in vrt.RdP/WrP")
 	flag.Parse()
 	var pats []string
 	for _, p := range flag.Args() {
@@ -99,12 +99,82 @@ func main() {
 	}
 }
 
+var raceMode bool
+
+// hooked lists the shared fields whose accesses are wrapped in race mode:
+// "<package path suffix>.<struct type>" -> field names.
+var hooked = map[string][]string{
+	"internal/metrics.Metric":        {"LabelValues", "labelValuesMap", "Source", "Limit", "Buckets", "Keys"},
+	"internal/metrics.LabelValue":    {"Expiry", "Value", "Labels"},
+	"internal/metrics.Store":         {"Metrics"},
+	"internal/metrics/datum.String":  {"Value"},
+	"internal/metrics/datum.Buckets": {"Buckets", "Count", "Sum"},
+	"internal/runtime.Runtime":       {"handles", "programErrors"},
+	"internal/runtime/vm.VM":         {"runtimeError", "terminate", "input"},
+}
+
+// hookedField reports "Type.Field" if sel selects a hooked field.
+func hookedField(info *types.Info, sel *ast.SelectorExpr) string {
+	s, ok := info.Selections[sel]
+	if !ok || s.Kind() != types.FieldVal {
+		return ""
+	}
+	v, ok := s.Obj().(*types.Var)
+	if !ok || !v.IsField() || v.Pkg() == nil {
+		return ""
+	}
+	// find the struct type that declares the field
+	recv := s.Recv()
+	if p, ok := recv.(*types.Pointer); ok {
+		recv = p.Elem()
+	}
+	named, ok := recv.(*types.Named)
+	if !ok {
+		return ""
+	}
+	// embedded promotion: walk the index path
+	t := types.Type(named)
+	idx := s.Index()
+	for i := 0; i < len(idx)-1; i++ {
+		st, ok := t.Underlying().(*types.Struct)
+		if !ok {
+			return ""
+		}
+		t = st.Field(idx[i]).Type()
+		if p, ok := t.(*types.Pointer); ok {
+			t = p.Elem()
+		}
+	}
+	n, ok := t.(*types.Named)
+	if !ok || n.Obj().Pkg() == nil {
+		return ""
+	}
+	key := strings.TrimPrefix(n.Obj().Pkg().Path(), modulePath) + "." + n.Obj().Name()
+	for _, f := range hooked[key] {
+		if f == v.Name() {
+			return n.Obj().Name() + "." + f
+		}
+	}
+	return ""
+}
+
 func vrtCall(fn string, args ...ast.Expr) *ast.CallExpr {
 	return &ast.CallExpr{Fun: &ast.SelectorExpr{X: ast.NewIdent("vrt"), Sel: ast.NewIdent(fn)}, Args: args}
 }
 
+// origOf maps the expressions generated for hooked fields back to the selector
+// they replace, so that later type queries (range over a map field) still work.
+var origOf = map[ast.Expr]ast.Expr{}
+
+func typeOf(info *types.Info, e ast.Expr) types.Type {
+	if o, ok := origOf[e]; ok {
+		e = o
+	}
+	return info.TypeOf(e)
+}
+
 func isChan(info *types.Info, e ast.Expr) bool {
-	t := info.TypeOf(e)
+	t := typeOf(info, e)
 	if t == nil {
 		return false
 	}
@@ -113,7 +183,7 @@ func isChan(info *types.Info, e ast.Expr) bool {
 }
 
 func isMap(info *types.Info, e ast.Expr) bool {
-	t := info.TypeOf(e)
+	t := typeOf(info, e)
 	if t == nil {
 		return false
 	}
@@ -166,7 +236,56 @@ func rewriteFile(p *packages.Package, f *ast.File) bool {
 		}
 	}
 	skip := map[ast.Node]bool{}
+	role := map[*ast.SelectorExpr]string{} // "w" = written, "skip" = address taken
+	markLHS := func(e ast.Expr) {
+		e = ast.Unparen(e)
+		for {
+			switch x := e.(type) {
+			case *ast.IndexExpr:
+				e = ast.Unparen(x.X)
+				continue
+			case *ast.SelectorExpr:
+				if hookedField(info, x) != "" {
+					role[x] = "w"
+				}
+				// a write through x.F.G also reads x.F: leave inner selectors as reads
+			}
+			break
+		}
+	}
+	var funcStack []string
 	pre := func(c *astutil.Cursor) bool {
+		if fd, ok := c.Node().(*ast.FuncDecl); ok {
+			name := fd.Name.Name
+			if fd.Recv != nil && len(fd.Recv.List) == 1 {
+				var b bytes.Buffer
+				_ = format.Node(&b, fset, fd.Recv.List[0].Type)
+				name = "(" + b.String() + ")." + name
+			}
+			funcStack = append(funcStack, name)
+		}
+		if raceMode {
+			switch n := c.Node().(type) {
+			case *ast.AssignStmt:
+				for _, l := range n.Lhs {
+					markLHS(l)
+				}
+			case *ast.IncDecStmt:
+				markLHS(n.X)
+			case *ast.CallExpr:
+				if isBuiltin(info, n.Fun, "delete") && len(n.Args) == 2 {
+					markLHS(n.Args[0])
+				}
+			case *ast.UnaryExpr:
+				if n.Op == token.AND {
+					if sel, ok := ast.Unparen(n.X).(*ast.SelectorExpr); ok && hookedField(info, sel) != "" {
+						role[sel] = "skip"
+					}
+				}
+			case *ast.RangeStmt:
+				// `for i := range x.F` with a key/value assigned to hooked fields is not used by mtail
+			}
+		}
 		if sel, ok := c.Node().(*ast.SelectStmt); ok {
 			for _, cl := range sel.Body.List {
 				cc := cl.(*ast.CommClause)
@@ -187,6 +306,45 @@ func rewriteFile(p *packages.Package, f *ast.File) bool {
 	}
 	post := func(c *astutil.Cursor) bool {
 		switch n := c.Node().(type) {
+		case *ast.FuncDecl:
+			funcStack = funcStack[:len(funcStack)-1]
+		case *ast.SelectorExpr:
+			if !raceMode {
+				return true
+			}
+			fld := hookedField(info, n)
+			if fld == "" || role[n] == "skip" {
+				return true
+			}
+			// the field must be addressable: base is a pointer or an addressable operand
+			if tv, ok := info.Types[n.X]; ok {
+				_, isPtr := tv.Type.Underlying().(*types.Pointer)
+				if !isPtr && !tv.Addressable() {
+					failf(fset, n.Pos(), "hooked field %s selected from a non-addressable value", fld)
+					return true
+				}
+			}
+			hook := "RdP"
+			if role[n] == "w" {
+				hook = "WrP"
+			}
+			pos := fset.Position(n.Pos())
+			// sites are named by file and enclosing function (stable under edits elsewhere in the file)
+			fn := "?"
+			if len(funcStack) > 0 {
+				fn = funcStack[len(funcStack)-1]
+			}
+			file := pos.Filename
+			if i := strings.Index(file, "/internal/"); i >= 0 {
+				file = file[i+10:]
+			}
+			site := file + ":" + fn
+			call := vrtCall(hook, &ast.UnaryExpr{Op: token.AND, X: &ast.SelectorExpr{X: n.X, Sel: n.Sel}},
+				&ast.BasicLit{Kind: token.STRING, Value: strconv.Quote(fld)}, &ast.BasicLit{Kind: token.STRING, Value: strconv.Quote(site)})
+			repl := &ast.ParenExpr{X: &ast.StarExpr{X: call}}
+			origOf[repl] = n
+			c.Replace(repl)
+			changed, usesVrt = true, true
 		case *ast.GoStmt:
 			c.Replace(rewriteGo(info, fset, n))
 			changed, usesVrt = true, true
